@@ -12,6 +12,7 @@ import PdshVerif.Hostlist.Uniq
 import PdshVerif.Hostlist.Print
 import PdshVerif.Hostlist.PrintMore
 import PdshVerif.Hostlist.LemmasUniq
+import PdshVerif.Hostlist.LemmasDigits
 
 namespace PdshVerif.Bridge.Hostlist
 open PdshVerif.Hostlist PdshVerif.C2Lean
@@ -357,5 +358,68 @@ theorem hostrange_join_bridge (fuel : Nat) (a b : HRange) (hf : 20 ≤ fuel) (ia
     simp only [Prod.mk.injEq] at hj
     obtain ⟨rfl, rfl, rfl⟩ := hj
     simp [h]
+
+/-! ### `host_prefix_end` -/
+
+theorem isdigitP_schar (c : Char) (hc : c.toNat < 256) : isdigitP (schar c) ↔ isDigit c = true := by
+  rw [isDigit_iff]
+  unfold isdigitP schar
+  have : c.toNat % 256 = c.toNat := Nat.mod_eq_of_lt hc
+  rw [this]
+  split <;> omega
+
+/-- the backwards scan: started at index `i - 1` it stops at the last non-digit before position `i` -/
+theorem host_prefix_end_loop (fuel : Nat) (s : Str) (hb : ∀ c ∈ s, c.toNat < 256) (hl : s.length < 2147483647) :
+    ∀ (i k : Nat), i ≤ s.length → i < k →
+      host_prefix_end_loop1 fuel s k ((i : Int) - 1) =
+        some (((i - ((s.take i).reverse.takeWhile isDigit).length : Nat) : Int) - 1) := by
+  intro i
+  induction i with
+  | zero =>
+    intro k _ hk
+    cases k with
+    | zero => omega
+    | succ k => simp [host_prefix_end_loop1]
+  | succ i ih =>
+    intro k hi hk
+    cases k with
+    | zero => omega
+    | succ k =>
+      have hlt : i < s.length := by omega
+      have e0 : ((i + 1 : Nat) : Int) - 1 = (i : Int) := by omega
+      rw [e0]
+      unfold host_prefix_end_loop1
+      have hc1 : (0 : Int) ≤ (i : Int) ∧ (i : Int) ≤ (s.length : Int) := by omega
+      have hge : (i : Int) ≥ 0 := by omega
+      have hat : strAt s (i : Int).toNat = schar s[i] := by
+        simp [strAt, hlt]
+      have htake : (s.take (i + 1)).reverse = s[i] :: (s.take i).reverse := by
+        rw [List.take_succ_eq_append_getElem hlt]; simp
+      have hcb : s[i].toNat < 256 := hb _ (List.getElem_mem hlt)
+      simp only [hc1, hge, and_self, not_true_eq_false, and_false, if_false, true_and, hat, isdigitP_schar _ hcb, htake,
+        List.takeWhile_cons]
+      by_cases hd : isDigit s[i] = true
+      · have hr : -2147483648 ≤ (i : Int) - 1 ∧ (i : Int) - 1 ≤ 2147483647 := by omega
+        simp only [hd, if_true, hr, and_self, not_true_eq_false, if_false]
+        rw [ih k (by omega) (by omega)]
+        have := (List.takeWhile_sublist (p := isDigit) (l := (s.take i).reverse)).length_le
+        simp only [List.length_cons, List.length_reverse, List.length_take] at this ⊢
+        congr 1
+        omega
+      · simp only [hd, Bool.false_eq_true, if_false, List.length_nil]
+        congr 1
+        omega
+
+/-- BRIDGE `host_prefix_end` = `hostPrefixLen - 1` (index of the last character of the prefix, -1 if none),
+    for every byte string shorter than INT_MAX and fuel > its length -/
+theorem host_prefix_end_bridge (fuel : Nat) (s : Str) (hb : ∀ c ∈ s, c.toNat < 256) (hl : s.length < 2147483647)
+    (hf : s.length < fuel) :
+    host_prefix_end fuel s = some ((hostPrefixLen s : Int) - 1) := by
+  unfold host_prefix_end
+  have e : ((((s.length + 18446744073709551616 - 1) % 18446744073709551616 : Nat) : Int) + 2147483648) % 4294967296
+      - 2147483648 = (s.length : Int) - 1 := by omega
+  simp only [e]
+  rw [host_prefix_end_loop fuel s hb hl s.length fuel (Nat.le_refl _) hf]
+  simp [hostPrefixLen]
 
 end PdshVerif.Bridge.Hostlist
